@@ -35,6 +35,10 @@ class Scn:
     def l(self, p, t):
         self.entries.append(dict(k='l', p=p, t=t)); return self
 
+    def h(self, p, to):
+        """hard link (not expressible in the Lean model: scenarios using it skip the model comparison)"""
+        self.entries.append(dict(k='h', p=p, to=to)); self.no_model = True; return self
+
     def s(self, p, kind, rdev=(0, 0)):
         self.entries.append(dict(k='s', p=p, kind=kind, rdev=rdev)); return self
 
@@ -67,6 +71,8 @@ def materialise(root, sc):
                     fh.write(sc.content(e))
             elif e['k'] == 'l':
                 os.symlink(real_target(root, e['t']), rp)
+            elif e['k'] == 'h':
+                os.link(real(root, e['to']), rp)
             elif e['k'] == 's':
                 if e['kind'] == 'sock':
                     import socket
@@ -94,6 +100,7 @@ def ordered_tokens(root, sc):
         if e['k'] == 'd': return f"d:{hx(e['p'])}"
         if e['k'] == 'f': return f"f:{hx(e['p'])}:{e['id']}"
         if e['k'] == 'l': return f"l:{hx(e['p'])}:{hx(e['t'])}"
+        if e['k'] == 'h': return f"f:{hx(e['p'])}:{by_path[e['to']]['id']}"
         return f"s:{hx(e['p'])}:{e['kind']}:{os.makedev(*e['rdev']) if e['kind'] in ('chr', 'blk') else 0}"
 
     def visit(mp):
@@ -130,6 +137,7 @@ def argv(root, sc):
 def snapshot_tokens(root, sc, strip=True):
     """canonical tokens of the real sandbox, same vocabulary as the model's dump"""
     ids = {sc.content(e): e['id'] for e in sc.entries if e['k'] == 'f'}
+    ids[b''] = 0
     rootb = root.encode()
     out = []
 
